@@ -1747,11 +1747,25 @@ Proof.
       rewrite map_app, concat_app, app_assoc. reflexivity.
 Qed.
 
-Definition run_sessions (ss : list ((bytes -> bool) * list entry)) (file : bytes) : bytes :=
-  fold_left (fun f s => session (fst s) f (snd s)) ss file.
+Fixpoint run_sessions (ss : list ((bytes -> bool) * list entry)) (file : bytes) : bytes :=
+  match ss with
+  | [] => file
+  | s :: ss' => run_sessions ss' (session (fst s) file (snd s))
+  end.
 
-Definition run_records (ss : list ((bytes -> bool) * list entry)) (R : list entry) : list entry :=
-  fold_left (fun r s => session_records (fst s) r (snd s)) ss R.
+Fixpoint run_records (ss : list ((bytes -> bool) * list entry)) (R : list entry) : list entry :=
+  match ss with
+  | [] => R
+  | s :: ss' => run_records ss' (session_records (fst s) R (snd s))
+  end.
+
+Lemma run_sessions_cons live es ss file :
+  run_sessions ((live, es) :: ss) file = run_sessions ss (session live file es).
+Proof. reflexivity. Qed.
+
+Lemma run_records_cons live es ss R :
+  run_records ((live, es) :: ss) R = run_records ss (session_records live R es).
+Proof. reflexivity. Qed.
 
 Lemma run_sessions_holds ss : forall file R,
   holds file R ->
@@ -1761,8 +1775,7 @@ Proof.
   induction ss as [|[live es] ss IH]; intros file R Hh Hw Hf; [assumption|].
   cbn [map concat snd] in Hw, Hf.
   apply Forall_app in Hw. destruct Hw as [Hw1 Hw2]. apply Forall_app in Hf. destruct Hf as [Hf1 Hf2].
-  change (run_sessions ((live, es) :: ss) file) with (run_sessions ss (session live file es)).
-  change (run_records ((live, es) :: ss) R) with (run_records ss (session_records live R es)).
+  rewrite run_sessions_cons, run_records_cons.
   apply IH; [apply session_step; assumption|assumption|assumption].
 Qed.
 
@@ -1808,8 +1821,8 @@ Lemma run_records_inv ss : forall R All,
              latest n (run_records ss R) = None).
 Proof.
   induction ss as [|[live es] ss IH]; intros R All Hinv n.
-  - cbn [run_records fold_left map concat]. rewrite app_nil_r. apply Hinv.
-  - cbn [run_records fold_left map concat fst snd]. rewrite app_assoc.
+  - cbn [run_records map concat]. rewrite app_nil_r. apply Hinv.
+  - rewrite run_records_cons. cbn [map concat snd]. rewrite app_assoc.
     apply IH. clear n. intros n. unfold session_records.
     destruct (needs_of R); rewrite !latest_app.
     + destruct (latest n es); [left; reflexivity|]. rewrite latest_compacted.
@@ -1823,8 +1836,8 @@ Lemma run_records_live ss : forall R All n,
   latest n (run_records ss R) = latest n (All ++ concat (map snd ss)).
 Proof.
   induction ss as [|[live es] ss IH]; intros R All n Hlive Hinv.
-  - cbn [run_records fold_left map concat]. rewrite app_nil_r. apply Hinv.
-  - cbn [run_records fold_left map concat fst snd]. rewrite app_assoc.
+  - cbn [run_records map concat]. rewrite app_nil_r. apply Hinv.
+  - rewrite run_records_cons. cbn [map concat snd]. rewrite app_assoc.
     apply IH; [intros s Hs; apply Hlive; right; assumption|].
     unfold session_records. destruct (needs_of R); rewrite !latest_app.
     + destruct (latest n es); [reflexivity|]. rewrite latest_compacted.
